@@ -514,6 +514,8 @@ def main(tier):
     rep.attempt(copypair.check, rep, 46)
     import bounds
     rep.attempt(bounds.check, rep, {'crc', 'crc_copy', 'adler'}, 'CRC', 30)
+    import guardloop
+    rep.attempt(guardloop.check, rep, 'CRC', r'^crc/|adler32', 5)
     rep.attempt(bounds.check_len_width, rep, {'crc', 'crc_copy', 'adler'}, 'CRC', 31)
     import stridecover
     rep.attempt(stridecover.check, rep, 'CRC', {'crc', 'crc_copy', 'adler'}, 80)
